@@ -341,10 +341,38 @@ impl DomainCheck {
                 scope.truncate(mark);
             }
             Expr::DynamicWind(a, b, c) => {
+                for t in [a, b, c] {
+                    if !matches!(&**t, Expr::Lambda(_) | Expr::Var(_)) {
+                        self.problems.push("a dynamic-wind thunk that is not a lambda expression or a variable".to_string());
+                    }
+                }
                 self.group("dynamic-wind", &[&**a, &**b, &**c], scope);
                 self.expr(a, scope);
                 self.expr(b, scope);
                 self.expr(c, scope);
+            }
+            Expr::If(t, _, _) if matches!(&**t, Expr::Var(n) if !scope.contains(n) && crate::prims::PRIM_NAMES.contains(&n.as_str())) => {
+                // (if car a b): a builtin procedure as the test is something only the reducer writes; the generators
+                // never do, and it leads reductions away from the failure they started from
+                self.problems.push("a builtin procedure used as the test of an if".to_string());
+                for c in children(e) {
+                    self.expr(c, scope);
+                }
+            }
+            Expr::WithHandler(h, b) => {
+                // Steel looks at the handler when an error arrives, another reading checks it when it is installed:
+                // only handlers that are procedures by construction are in the domain
+                if !matches!(&**h, Expr::Lambda(_) | Expr::Var(_)) {
+                    self.problems.push("an exception handler that is not a lambda expression or a variable".to_string());
+                }
+                self.expr(h, scope);
+                self.expr(b, scope);
+            }
+            Expr::CallCC(f) => {
+                if !matches!(&**f, Expr::Lambda(_) | Expr::Var(_)) {
+                    self.problems.push("a call/cc receiver that is not a lambda expression or a variable".to_string());
+                }
+                self.expr(f, scope);
             }
             _ => {
                 for c in children(e) {
